@@ -1,7 +1,14 @@
 """shared body of the layout-family property modules (C01, C03, C05, C06, C10, C11)"""
-from .. import layout, common
+from .. import layout, heap, common
 
 _cache = {}
+
+
+def _heap(tier, seed):
+    key = ("heap", tier, seed)
+    if key not in _cache:
+        _cache[key] = heap.run_all(tier, seed)
+    return _cache[key]
 
 
 def _run(tier, seed, refs):
@@ -18,14 +25,16 @@ def make(prop, prefixes, rule, assumptions, partial):
     def run(tier, seed):
         a = _run(tier, seed, False)
         b = _run(tier, seed, True)
+        hp = _heap(tier, seed)      # assignments of EXISTING objects to nested slots, copies, references (shared with C08/C09)
         tags = {("noref." + k): v for k, v in a["tags"].items()}
         tags.update({("refs." + k): v for k, v in b["tags"].items()})
+        tags.update({("heap." + k): v for k, v in hp["tags"].items()})
         return {
-            "failures": mine(a["failures"]) + mine(b["failures"]),
-            "mismatches": a["mismatches"] + b["mismatches"],
-            "evaluations": a["lines"] + b["lines"],
-            "distinct_nontrivial": a["distinct"] + b["distinct"],
-            "traces": a["lines"] + b["lines"],
+            "failures": mine(a["failures"]) + mine(b["failures"]) + mine(hp["failures"]),
+            "mismatches": a["mismatches"] + b["mismatches"] + hp["mismatches"],
+            "evaluations": a["lines"] + b["lines"] + hp["lines"],
+            "distinct_nontrivial": a["distinct"] + b["distinct"] + hp["distinct"],
+            "traces": a["lines"] + b["lines"] + hp["lines"],
             "rule": "random types of the whole grammar (depth 1-3; structs with 0-4 static/dynamic fields; arrays of 1-3 dims, static/"
                     "dynamic/zero-length dims, any axis order, scalar/string/struct/array/Ref/UnionRef items; a reference-free and a "
                     "reference-bearing stream) x values (integer extremes, inf, -0.0, multi-byte UTF-8, empty strings/arrays, string "
@@ -34,7 +43,8 @@ def make(prop, prefixes, rule, assumptions, partial):
                     "buffer.allocate traced; offset, size, capacity and the WHOLE buffer image, deep reads through handle and view, "
                     "element reads, bad indices, fitting / misfitting / wrong-shape assignments (image after each, also at a raise) are "
                     "compared with the executable Lean model; for reference-free cases the proof model's own definitions (patchesD, "
-                    "readD, setScalar, rewriteStr) are executed on the same case. " + rule,
+                    "readD, setScalar, rewriteStr) are executed on the same case; the heap stream additionally assigns existing "
+                    "objects (same sizes / other sizes, from any buffer) to nested struct and array slots. " + rule,
             "samples": a["samples"][:3] + b["samples"][:3],
             "tags": tags,
             "correspondence": {"lay": {"lines": a["lines"] + b["lines"], "mismatches": len(a["mismatches"]) + len(b["mismatches"]),
@@ -50,6 +60,7 @@ def make(prop, prefixes, rule, assumptions, partial):
         for s in range(2):
             for refs in (False, True):
                 out.extend(mine(layout.run_all("quick", seed + 4000 + s, refs=refs, n=700)["failures"]))
+            out.extend(mine(heap.run_all("quick", seed + 4000 + s, n=700)["failures"]))
             if out:
                 break
         return out
@@ -58,6 +69,7 @@ def make(prop, prefixes, rule, assumptions, partial):
         out = []
         for refs in (False, True):
             out.extend(mine(layout.run_all(rep.get("tier", "quick"), rep.get("seed", 0), refs=refs)["failures"]))
+        out.extend(mine(heap.run_all(rep.get("tier", "quick"), rep.get("seed", 0))["failures"]))
         for x in out[:5]:
             print("oracle:", x.key, x.what[:300])
         if out:
